@@ -6,34 +6,25 @@ import (
 	"github.com/freeconf/yang/node"
 	"github.com/freeconf/yang/nodeutil"
 	"github.com/freeconf/yang/parser"
-	"github.com/freeconf/yang/xpath"
 )
 
 func main() {
 	y := `module k { namespace "urn:k"; prefix k; revision 0;
-	leaf u8 {type uint8;} leaf i8 {type int8;} leaf i32 {type int32;} leaf u32 { type uint32; } leaf u64 { type uint64; } leaf i64 { type int64; }
-	leaf d1 { type decimal64 { fraction-digits 1; } } leaf e { type enumeration { enum a; enum b; enum c { value 10; } } } leaf s { type string; } leaf bo { type boolean; } }`
+	list l { when "v>10"; key k; leaf k {type string;} leaf v {type int32;} leaf o {type string;} }
+	leaf sw {type boolean;} choice ch { case a { leaf x { when "sw='true'"; type string; } } case b { leaf y {type string;} } }
+	container c { when "z>10"; leaf z { type int32; } leaf q { type string; } }
+	}`
 	m, err := parser.LoadModuleFromString(nil, y)
 	if err != nil {
 		panic(err)
 	}
-	n, _ := nodeutil.ReadJSON(`{"u8":200,"i8":-5,"i32":2,"u32":7,"u64":9,"i64":-3,"d1":2.5,"e":"c","s":"abc","bo":true}`)
-	b := node.NewBrowser(m, n)
-	for _, e := range []string{"u8<300", "u8<256", "u8>-1", "u8=256", "u8!=256", "i8>-129", "i32<3000000000", "u32>-1", "u32<4294967296", "u64>-1", "i64<9223372036854775808", "i64>-9223372036854775809", "u64<18446744073709551616",
-		"i32<2.5", "i32>1.5", "i32=2.0", "i32=2.5", "u8>199.5", "d1>2", "d1<3", "d1=2.5", "d1=2.50", "e='10'", "e='zz'", "e='c'", "e!='zz'", "e=10", "s=5", "s='abc'", "bo='true'", "bo=1", "bo='yes'", "i32='2'", "i32='x'"} {
-		p, err := xpath.Parse(e)
-		if err != nil {
-			fmt.Printf("%-30s parse error %v\n", e, err)
-			continue
-		}
-		func() {
-			defer func() {
-				if r := recover(); r != nil {
-					fmt.Printf("%-30s PANIC %v\n", e, r)
-				}
-			}()
-			ok, err := b.Root().XPredicate(p)
-			fmt.Printf("%-30s %v %v\n", e, ok, err)
-		}()
+	data := map[string]interface{}{"sw": false, "y": "Y", "l": []map[string]interface{}{{"k": "a", "v": 11, "o": "x"}, {"k": "b", "v": 1, "o": "y"}}, "c": map[string]interface{}{"z": 5, "q": "Q"}}
+	b := node.NewBrowser(m, nodeutil.ReflectChild(data))
+	for _, doc := range []string{`{"l":[{"k":"b","o":"changed"}]}`, `{"x":"X"}`, `{"c":{"q":"changed"}}`, `{"l":[{"k":"b","v":50,"o":"changed2"}]}`} {
+		src, _ := nodeutil.ReadJSON(doc)
+		err := b.Root().UpsertFrom(src)
+		fmt.Println(doc, "->", err, data)
 	}
+	s, err := b.Root().Find("l=b")
+	fmt.Println(s, err)
 }
